@@ -27,3 +27,19 @@ pub fn named_variable(name: &str, is_optional: bool) -> crate::expressions::pars
 pub fn named_variable_parts(v: &crate::expressions::parser::NamedVariable) -> (String, bool) {
     (v.name.clone(), v.is_optional)
 }
+
+/// Phase 1 of the last `Model::evaluate` on this thread: (number of dynamic-array anchors,
+/// restarts performed, whether the loop gave up because the `n*n+1` bound was reached).
+/// Written by `Model::evaluate`; read by the verification harness (property C07).
+pub mod phase1 {
+    use std::cell::Cell;
+    thread_local! {
+        static LAST: Cell<(usize, usize, bool)> = const { Cell::new((0, 0, false)) };
+    }
+    pub fn record(anchors: usize, restarts: usize, gave_up: bool) {
+        LAST.with(|c| c.set((anchors, restarts, gave_up)));
+    }
+    pub fn last() -> (usize, usize, bool) {
+        LAST.with(|c| c.get())
+    }
+}
